@@ -33,6 +33,7 @@ def run(idx: ProgramIndex, rep: Report, tier: str):
     marginals(idx, rep)
     noise_keyword(idx, rep)
     sibling_forwarding(idx, rep)
+    multitask_global_noise(idx, rep)
     list_routing(idx, rep, "LikelihoodList", "likelihoods", "C12-3", 5)
 
 
@@ -276,6 +277,34 @@ def sibling_forwarding(idx: ProgramIndex, rep: Report):
         rep.add("C12-4", "%s:%s.%s" % (base.module.name, base.qualname, name), fi.where, not probs,
                 "noise obtained once through _shaped_noise_covar with *params/**kwargs forwarded" if not probs else "; ".join(probs), {})
     rep.floor("C12-4", "sibling methods", n, 3)
+
+
+def multitask_global_noise(idx: ProgramIndex, rep: Report):
+    """In the multitask noise the global sigma^2 enters at most once per path, and only under `add_noise and has_global_noise`
+    (or alone when there is no task noise)."""
+    L = idx.find_class("_MultitaskGaussianLikelihoodBase")
+    fi = idx.method(L, "_shaped_noise_covar", own=True)
+    sn = fi.params[0]
+    probs = []
+    npaths = 0
+    for p in enumerate_paths(body_without_docstring(fi.node)):
+        if p.outcome != RETURN:
+            continue
+        npaths += 1
+        uses = [s for s in p.steps if s.kind == "stmt" and any(chain(a) == "%s.noise" % sn for a in ast.walk(s.node) if isinstance(a, ast.Attribute))]
+        if len(uses) > 1:
+            probs.append("the global noise enters %d times on one path" % len(uses))
+        conds = [(src(s.node), s.truth) for s in p.steps if s.kind == "assume"]
+        if uses:
+            no_task = any(t == "not %s.has_task_noise" % sn and v for t, v in conds)
+            guarded = any("add_noise" in t and "has_global_noise" in t and v for t, v in conds)
+            if not (no_task or guarded):
+                probs.append("the global noise is added on a path that did not test `add_noise and has_global_noise`")
+    rep.add("C12-1", "%s:_MultitaskGaussianLikelihoodBase._shaped_noise_covar[global noise once]" % L.module.name, fi.where, not probs and npaths >= 4,
+            "on all %d paths sigma^2 enters at most once and only when requested" % npaths if not probs else "; ".join(sorted(set(probs))), {"paths": npaths})
+    mg = idx.method(L, "marginal", own=True)
+    ok = any(chain(c.func) == "self._shaped_noise_covar" and any(k.arg == "add_noise" and src(k.value) == "self.has_global_noise" for k in c.keywords) for c in calls_in(mg.node))
+    rep.add("C12-1", "%s:_MultitaskGaussianLikelihoodBase.marginal[add_noise]" % L.module.name, mg.where, ok, "the marginal requests the global noise exactly when the likelihood has one" if ok else "marginal no longer passes add_noise=self.has_global_noise", {})
 
 
 # ---- C12-3 (shared with C08-3) -------------------------------------------------------------------------------------
